@@ -316,6 +316,15 @@ func (g *G) PropSchema(depth int, inArray bool) M {
 	case "map":
 		g.hit("kw:map")
 		var v M
+		if len(g.Defs) > 0 && r.P(0.35) {
+			// the value type given only by a reference
+			pre := "#/$defs/"
+			if g.O.LegacySpell {
+				pre = "#/definitions/"
+			}
+			g.hit("kw:map-of-$ref")
+			return M{"type": "object", "additionalProperties": M{"$ref": pre + core.Pick(r, core.SortedKeys(g.Defs))}}
+		}
 		switch r.Intn(5) {
 		case 0:
 			v = g.NumSchema("integer")
